@@ -222,6 +222,47 @@ func runC06(b *mon.B) {
 		fl := r.Pick(0, 1, 4, 5, r.Intn(256))
 		one(rfc8907.Header{Major: 0xc, Minor: r.Intn(2), Type: 1 + r.Intn(3), Seq: 1 + 2*r.Intn(128), Flags: fl, Session: r.U32()}, kind)
 	}
+	// ---- a first reply that cannot be sent, then a fallback reply: the fallback is THE
+	// reply to the request and must be numbered request+1
+	unsendable := []struct {
+		name string
+		mk   func() tq.EncoderDecoder
+	}{
+		{"body-does-not-marshal", func() tq.EncoderDecoder { return &rawBody{Err: fmt.Errorf("cannot marshal")} }},
+		{"invalid-author-reply", func() tq.EncoderDecoder {
+			return tq.NewAuthorReply(tq.SetAuthorReplyStatus(tq.AuthorStatusPassAdd), tq.SetAuthorReplyArgs("="))
+		}},
+		{"body-over-64KiB", func() tq.EncoderDecoder { return &rawBody{B: r.Bytes(65537 + r.Intn(100))} }},
+	}
+	for k := 0; k < b.N(30, 600); k++ {
+		caseNo++
+		if !b.Want(caseNo) {
+			continue
+		}
+		u := unsendable[k%len(unsendable)]
+		kind := replyKinds[r.Pick(0, 2, 3, 5)]
+		rep := kind.Make(r)
+		wantClear, _ := rep.MarshalBinary()
+		h := rfc8907.Header{Major: 0xc, Minor: r.Intn(2), Type: 1 + r.Intn(3), Seq: 1 + 2*r.Intn(127), Flags: r.Pick(0, 1, 4), Session: r.U32()}
+		srv.Plan.set(h.Session, planStep{First: u.mk(), Reply: rep, Next: k%2 == 0})
+		written, stray, _, st, err := srv.step(conn, pktSpec{H: h, Clear: c05Body(r, h.Type, 10, false)}.wire(secret))
+		if err != nil {
+			b.Inconclusive("fallback case: %v", err)
+			break
+		}
+		b.Eval(1)
+		b.Class("fallback-after/%s/type%d/u%d", u.name, h.Type, h.Flags&1)
+		if slug, msg := checkReply(h, secret, kind, wantClear, written, stray); slug != "" {
+			b.Violate(caseNo, "C06/fallback-after-"+u.name+"/"+slug, fmt.Sprintf("a first reply (%s) could not be sent; the fallback reply: %s", u.name, msg),
+				map[string]interface{}{"request_header": hexs(h.Encode()), "unsendable_first_reply": u.name})
+		} else {
+			b.Count("fallback_replies_conforming", 1)
+		}
+		if st.Closed {
+			conn = srv.dial(3000+reconnects, secret)
+			reconnects++
+		}
+	}
 	// ---- one session walking 1,3,...,255 with a continuation every time
 	for rep := 0; rep < b.N(2, 30); rep++ {
 		caseNo++
